@@ -1,6 +1,8 @@
 /* S-connp: stream-API operation sequences on a connection parser, with scripted callbacks.
  * case: connp \t cfg \t script \t ops
- *   cfg    = p=<personality>,hard=<n>,soft=<n>,maxtx=<n>,auto=<0|1>,spaceuri=<0|1>,lws=<code>
+ *   cfg    = p=<personality>,hard=<n>,soft=<n>,maxtx=<n>,auto=<0|1>,spaceuri=<0|1>,lws=<code>[,full=1]
+ *            full=1 (implementation-only runs of C01: the model does not cover these parts) switches on request and response
+ *            decompression, cookie and authorization parsing and the urlencoded and multipart content handlers
  *   script = hook:callno:action;...  (or -)   action: 0 OK 1 DECLINED 2 STOP 3 ERROR 4 reg tx req-body hook
  *                                              5 reg tx res-body hook 6 htp_tx_destroy(current tx)
  *   ops    = comma separated: O open, Q<hex> request data, S<hex> response data, q<n> request gap, s<n> response gap,
@@ -125,6 +127,14 @@ static htp_cfg_t *cp_make_cfg(const char *cs) {
     htp_config_set_request_decompression(cfg, 0);
     htp_config_set_parse_request_cookies(cfg, 0);
     htp_config_set_parse_request_auth(cfg, 0);
+    if (cp_kv(cs, "full", 0)) {
+        htp_config_set_response_decompression(cfg, 1);
+        htp_config_set_request_decompression(cfg, 1);
+        htp_config_set_parse_request_cookies(cfg, 1);
+        htp_config_set_parse_request_auth(cfg, 1);
+        htp_config_register_urlencoded_parser(cfg);
+        htp_config_register_multipart_parser(cfg);
+    }
     htp_config_register_request_start(cfg, cp_cb_0);
     htp_config_register_request_line(cfg, cp_cb_1);
     htp_config_register_request_uri_normalize(cfg, cp_cb_2);
